@@ -10,7 +10,8 @@ from . import c09
 
 def pure(ctx, rule, qn, ps, ignore=()):
     for p in ps:
-        ws = [w for w in heap_writes(p) if not (w.loc[0] == 'sub' and w.loc[1][0] == 'attr' and w.loc[1][1] == V('self') and w.loc[1][2] in ignore)]
+        from ..lib import self_chain
+        ws = [w for w in heap_writes(p) if not (w.loc[0] == 'sub' and w.loc[1][0] == 'attr' and self_chain(w.loc[1]) is not None and w.loc[1][2] in ignore)]
         ctx.require(not ws, rule, '%s keeps no state between calls' % qn, ws[0].site if ws else None, [fmt(w.loc) for w in ws][:3], key='%s|%s|stateless' % (rule, qn))
 
 
@@ -22,36 +23,38 @@ def check(ctx):
     s2_s3(ctx)
 
 
-def s1_membership(ctx):
-    from ..lib import one_shot_state
-    for cn_ in ('DynamicUniverse', 'StaticUniverse'):
-        ctx.sub(one_shot_state, 'C19.S1', cn_)      # the universe answers every query, not only the first
-    # ---- S1 membership filter
-    qn = 'DynamicUniverse.get_assets'
-    fn = ctx.fn(qn)
-    ps = summarise(ctx, qn, policy=default_policy)
-    from ..lib import without_sound_memo_hits
-    ps, memo_fields = without_sound_memo_hits(ctx, 'C19.S1', fn, ps, 'C19.S1|%s' % qn)
+def same_answer_paths(ps):
+    """Paths that return the same value whatever they tested on the way (a wrapper that first brings the timestamp to UTC when it carries another zone) are one
+    answer.  A timestamp converted to another zone (tz_convert / astimezone) is the same instant: it compares with other instants exactly as before."""
+    import copy
 
-    def unlist(p):
-        # list(<list comprehension>) is that list
-        v = p.value
-        if v is not None and v[0] == 'call' and v[1] == ('ext', 'LIST') and len(v[2]) == 1 and v[2][0][0] == 'comp' and v[2][0][1] in ('list', 'gen'):
-            import copy
-            p = copy.copy(p)
-            p.value = ('comp', 'list') + tuple(v[2][0][2:])
-        return p
-    ps = [unlist(p) for p in ps]
-    ok1 = len(ps) == 1 and ps[0].outcome == 'return' and ps[0].value[0] == 'comp' and ps[0].value[1] == 'list' and len(ps[0].value[3]) == 1
-    if ctx.require(ok1 if ok1 else None, 'C19.S1', 'DynamicUniverse.get_assets is one list comprehension', fn.site(), [fmt(p.value)[:120] if p.value else p.outcome for p in ps]):
-        comp = ps[0].value
+    def canon(t):
+        return T.replace(t, lambda z: z[2][0] if z[0] == 'call' and z[1] in (('meth', 'tz_convert'), ('meth', 'astimezone')) and len(z[2]) >= 1 else None)
+    out, seen = [], set()
+    for p in ps:
+        if p.outcome == 'return' and p.value is not None and not heap_writes(p):
+            q = copy.copy(p)
+            q.value = canon(p.value)
+            k = T.tkey(q.value)
+            if k in seen:
+                continue
+            seen.add(k)
+            out.append(q)
+        else:
+            out.append(p)
+    return out
+
+
+def _judge_membership(ctx, fn, comp):
+    if True:
+        pass
         tg, it, ifs = comp[3][0]
         iter_ok = fmt(it) == 'self.asset_dates.items()' and len(tg) == 2 and comp[2] == tg[0]
         narrowed = any(s_[0] == 'slice' or (s_[0] == 'call' and s_[1] in (('ext', 'itertools.islice'),)) for s_ in T.subterms(it)) or \
             (fmt(it) == 'self.asset_dates.items()' and len(tg) == 2 and comp[2] != tg[0])
         if not iter_ok and not narrowed:
             ctx.undecided('C19.S1', 'every configured asset is considered and the asset itself is returned', fn.site(), 'unrecognised construction: %s' % fmt(comp)[:160])
-            return
+            return False
         ctx.require(iter_ok, 'C19.S1', 'every configured asset is considered and the asset itself is returned',
                     fn.site(), fmt(comp)[:160], key='C19.S1|iter')
         date = fmt(tg[1]) if len(tg) == 2 else '?'
@@ -75,17 +78,20 @@ def s1_membership(ctx):
                 if None in vs:
                     # the filter computes with the dates: evaluate it on concrete instants (in days) around the entry
                     vs = None
-                    for dtv in ({'<': [98, 99, Fraction(143999, 1440)], '=': [100], '>': [Fraction(144001, 1440), 101, 130]}[rel]):
-                        nv = Valuation(isnone={date: none}, nums=dict(defaults, **{'dt': dtv, date: 100}))
+                    # (entry at midnight of day 100, and entry in the middle of day 100: an entry instant need not be a date)
+                    probes = [(x_, Fraction(100)) for x_ in {'<': [98, 99, Fraction(143999, 1440)], '=': [100], '>': [Fraction(144001, 1440), 101, 130]}[rel]]
+                    probes += [(x_, Fraction(201, 2)) for x_ in {'<': [100, Fraction(401, 4)], '=': [Fraction(201, 2)], '>': [Fraction(403, 4), 101]}[rel]]
+                    for dtv, entry in probes:
+                        nv = Valuation(isnone={date: none}, nums=dict(defaults, **{'dt': dtv, date: entry}))
                         got_ = [nv.evalbool(c) for c in ifs]
                         if None in got_:
                             vs = [None]
                             break
-                        exp_ = (not none) and dtv >= 100
+                        exp_ = (not none) and dtv >= entry
                         if all(got_) != exp_:
                             bad += 1
                             ctx.violation('C19.S1', 'an asset is a member iff it has an entry date and entry <= dt (inclusive)', fn.site(),
-                                          'entry date %s at day 100, dt at day %s: code says %s, property says %s' % ('absent' if none else 'present', float(dtv),
+                                          'entry date %s at day %s, dt at day %s: code says %s, property says %s' % ('absent' if none else 'present', float(entry), float(dtv),
                                                                                                                     'member' if all(got_) else 'not a member', 'member' if exp_ else 'not a member'),
                                           key='C19.S1|filter-numeric|%s' % rel)
                             vs = got_
@@ -111,6 +117,37 @@ def s1_membership(ctx):
         if bad == 0:
             ctx.holds('C19.S1', 'membership filter agrees with the oracle on all %d (is-None x ordering) cases' % n, fn.site())
         ctx.sample({'rule': 'C19.S1', 'filter': [fmt(c) for c in ifs], 'cases': n})
+
+    return True
+
+
+def s1_membership(ctx):
+    from ..lib import one_shot_state
+    for cn_ in ('DynamicUniverse', 'StaticUniverse'):
+        ctx.sub(one_shot_state, 'C19.S1', cn_)      # the universe answers every query, not only the first
+    # ---- S1 membership filter
+    qn = 'DynamicUniverse.get_assets'
+    fn = ctx.fn(qn)
+    ps = summarise(ctx, qn, policy=default_policy)
+    from ..lib import without_sound_memo_hits
+    ps, memo_fields = without_sound_memo_hits(ctx, 'C19.S1', fn, ps, 'C19.S1|%s' % qn)
+
+    def unlist(p):
+        # list(<list comprehension>) is that list
+        v = p.value
+        if v is not None and v[0] == 'call' and v[1] == ('ext', 'LIST') and len(v[2]) == 1 and v[2][0][0] == 'comp' and v[2][0][1] in ('list', 'gen'):
+            import copy
+            p = copy.copy(p)
+            p.value = ('comp', 'list') + tuple(v[2][0][2:])
+        return p
+    ps = same_answer_paths([unlist(p) for p in ps])
+    is_comp = lambda p_: p_.outcome == 'return' and p_.value is not None and p_.value[0] == 'comp' and p_.value[1] == 'list' and len(p_.value[3]) == 1
+    ok1 = bool(ps) and all(is_comp(p_) for p_ in ps) and len(ps) <= 4
+    if ctx.require(ok1 if ok1 else None, 'C19.S1', 'DynamicUniverse.get_assets is one list comprehension', fn.site(), [fmt(p.value)[:120] if p.value else p.outcome for p in ps]):
+        # (several paths, each a comprehension - the timestamp prepared in different ways before the filter - are judged one by one)
+        for p_ in ps:
+            if _judge_membership(ctx, fn, p_.value) is False:
+                return
     ctx.sub(pure, 'C19.S1', qn, ps, memo_fields)
     for ip in summarise(ctx, 'DynamicUniverse.__init__', policy=default_policy):
         w = heap_writes(ip, 'asset_dates')
@@ -120,7 +157,7 @@ def s1_membership(ctx):
     ctx.require(all(w.fn.qn == 'DynamicUniverse.__init__' for w in ws) and ws, 'C19.S1', 'the entry-date map is set only by the constructor', ws[0].where if ws else None,
                 [w.fn.qn for w in ws], key='C19.S1|asset_dates')
     qn = 'StaticUniverse.get_assets'
-    ps = summarise(ctx, qn, policy=default_policy)
+    ps = same_answer_paths(summarise(ctx, qn, policy=default_policy))
     ok = len(ps) == 1 and ps[0].outcome == 'return' and ps[0].value in (A('self', 'asset_list'), ('call', ('ext', 'LIST'), (A('self', 'asset_list'),), ()))
     ctx.require(ok, 'C19.S1', 'a static universe yields exactly its configured list', ctx.fn(qn).site(), [fmt(p.value) if p.value else p.outcome for p in ps], key='C19.S1|static')
     ctx.sub(pure, 'C19.S1', qn, ps)
@@ -157,6 +194,8 @@ def s2_s3(ctx):
     qn = 'EqualWeightPortfolioOptimiser.__call__'
     fn = ctx.fn(qn)
     ps = summarise(ctx, qn, policy=default_policy)
+    from ..lib import without_sound_memo_hits
+    ps, eq_memos = without_sound_memo_hits(ctx, 'C19.S3', fn, ps, 'C19.S3|%s' % qn)
     rets = [p for p in ps if p.outcome == 'return']
     ctx.require(len(rets) >= 1, 'C19.S3', 'the equal-weight optimiser returns', fn.site())
     for p_ in rets:
@@ -174,4 +213,4 @@ def s2_s3(ctx):
         for cnt in (('call', ('ext', 'LEN'), (it,), ()), ('call', ('ext', 'LEN'), (V('initial_weights'),), ()), ('call', ('ext', 'LEN'), (('call', ('meth', 'keys'), (V('initial_weights'),), ()),), ())):
             alts.append(T.t_div(A('self', 'scale'), cnt))
         ctx.require(any(T.teq(w, a) for a in alts), 'C19.S3', 'each weight = scale / number of assets given', fn.site(), fmt(w), key='C19.S3|equal-weight')
-    ctx.sub(pure, 'C19.S3', qn, ps)
+    ctx.sub(pure, 'C19.S3', qn, ps, eq_memos)
